@@ -301,13 +301,14 @@ func (l *Logger) LogFromBPF(bpfEntry *BPFLogEntry) {
 		Timestamp:    time.Now().UTC(),
 		EventType:    l.bpfEventTypeToString(bpfEntry.EventType),
 		SubscriberID: bpfEntry.SubscriberID,
-		PrivateIP:    keyToIP(bpfEntry.PrivateIP).String(),
-		PrivatePort:  bpfEntry.PrivatePort,
-		PublicIP:     keyToIP(bpfEntry.PublicIP).String(),
-		PublicPort:   bpfEntry.PublicPort,
-		DestIP:       keyToIP(bpfEntry.DestIP).String(),
-		DestPort:     bpfEntry.DestPort,
-		Protocol:     l.protocolToString(bpfEntry.Protocol),
+		// the program copies addresses and ports from the packet: network byte order
+		PrivateIP:   bpfToIP(bpfEntry.PrivateIP).String(),
+		PrivatePort: portToBPF(bpfEntry.PrivatePort),
+		PublicIP:    bpfToIP(bpfEntry.PublicIP).String(),
+		PublicPort:  portToBPF(bpfEntry.PublicPort),
+		DestIP:      bpfToIP(bpfEntry.DestIP).String(),
+		DestPort:    portToBPF(bpfEntry.DestPort),
+		Protocol:    l.protocolToString(bpfEntry.Protocol),
 	}
 
 	l.addEntry(entry)
